@@ -216,6 +216,10 @@ def gen_track(rng):
         if not sub_last:
             for _ in range(rng.randrange(0, 3)):
                 items.append(gen_plain(rng))
+            if rng.random() < 0.15:
+                # the track changes its channel after a group: the group's bends and its whole bend-range announcement stay on the
+                # channel the group was played on
+                items.append(("cmd", "CH(%d)" % rng.choice([2, 3, 5, 9])))
     pending = False
     if not sub_last and rng.random() < 0.25:
         items += gen_group(rng, pending=True)
@@ -543,6 +547,13 @@ def check_program(ctx, p, plan, s, dT, dU, dR):
         if msg:
             ctx.oracle_fail("pitch bends of a tied group (track %d): %s" % (no, msg), s, str([(b[0], b[2]) for b in vT["bends"]])[:700],
                             "exact %s glides %s" % (exact[:20], windows[:10]), input_text=s)
+        # the three messages of a bend-range announcement go out on ONE channel, the channel of the bends that follow it
+        if vT["rpn"]:
+            chans = set(r[1] for r in vT["rpn"])
+            later = [b for b in vT["bends"] if b[0] >= min(r[0] for r in vT["rpn"])]
+            if len(chans) != 1 or (later and later[0][1] not in chans):
+                ctx.oracle_fail("bend range announcement: select and data entry are not on one channel / not on the channel of the bends (track %d)" % no,
+                                s, str(vT["rpn"])[:300], "all on channel %s" % (later[0][1] if later else "of the group"), input_text=s)
         # bend range announcement: at most once per track, only when a group bends
         triples = [r for r in vT["rpn"] if r[2] == 6]
         if len(triples) > 1 or (triples and not uses_bend) or (uses_bend and vT["bends"] and not triples):
